@@ -3,22 +3,21 @@ import IcyVerif.Model.BinFormats
 /-! `Buffer::from_bytes` for the five binary formats, COMPOSED from the two existing models:
     the SAUCE split of `Model/Sauce.lean` (the full `SauceData::extract`: comment block, every error return, every
     index as a panic site; `fromBytesSplit` = `let mut len = bytes.len(); match SauceData::extract(bytes) { … len -=
-    sauce_header_len … }; &bytes[..len]`) followed by the format loader of `Model/BinFormats.lean` (C05, read-only).
+    sauce_header_len … }; &bytes[..len]`) followed by the format loader of `Model/BinFormats.lean` (C05).
 
-    `Model/BinFormats.lean` has a `fromBytes` of its own with a cut-down `extractSauce` (no comments in the files C05
-    writes); here the record the loader receives is the one C11 proves things about.
+    Since the merge of the C05 work package `Model/BinFormats.lean` has no SAUCE reader of its own any more (its cut-down
+    `extractSauce` and its four-field record are gone): `BinFormats.fromBytes` IS this composition, at `BinFormats.dateOk`
+    and with the two outcome levels flattened (`fromBytes_is_binformats`, Lemmas/SauceLoad.lean), and the loaders take the
+    record C11 proves things about (`Sauce.Sauce`) as it is.
 
     Also: the probe alphabet of the harness (`c11load.rs`): the bytes the `.asc` loader draws as one non-blank cell. -/
 namespace IcyVerif.SauceLoad
 open IcyVerif.Sauce
 
-/-- what `Buffer::set_sauce(.., true)` and the binary loaders use of a record: size, ice flag (and the header length) -/
-def toLoader (s : Sauce) : BinFormats.Sauce := ⟨s.width, s.height, s.ice, s.headerLen⟩
-
 /-- `Buffer::from_bytes(Path::new("a.<ext>"), _, bytes)`, ext ∈ xb bin adf idf tnd.  Outer result: the SAUCE code
     (`panic` = a panic inside `extract` / the `len` arithmetic / the slice); inner result: the format loader -/
 def fromBytes (dateOk : List Nat → Bool) (f : BinFormats.Fmt) (bytes : List Nat) : Res (BinFormats.Out BinFormats.LBuf) :=
-  (fromBytesSplit dateOk bytes).bind fun cs => .ok (BinFormats.loadBody f cs.1 (cs.2.map toLoader))
+  (fromBytesSplit dateOk bytes).bind fun cs => .ok (BinFormats.loadBody f cs.1 cs.2)
 
 /-- probe alphabet `D`: 0x1A and the printable non-blank ASCII range — the `.asc` loader (`byte as char`, then
     `ascii::Parser::print_char`: everything but NUL, BEL, BS, LF, FF, CR, DEL, 0xFF is `print_value`) draws each as one
